@@ -849,6 +849,17 @@ def run(ctx):
         if h is not None:
             hf = hash_fields(h)
             extra = hf - sh.fields - {"__class__"}
+            if extra:
+                # a key method of the class itself (`hash(self.sort_key())`): judged on the fields it reads
+                try:
+                    hfl = ctx.norm.flat(h, depth=2)
+                    hf2 = hash_fields(hfl)
+                    if not any(isinstance(x, ast.Call) and isinstance(x.func, ast.Attribute) and isinstance(x.func.value, ast.Name)
+                               and x.func.value.id == h.params[0] for x in own_nodes(hfl.node)):
+                        hf = hf2
+                        extra = hf - sh.fields - {"__class__"}
+                except AnalysisError:
+                    pass
             if extra and not sh.unknown:
                 chk.violation(
                     "R15.b", h, h.node.body[-1],
